@@ -466,7 +466,9 @@ def strategy():
                      st.lists(st.integers(0, 20), max_size=8),
                      st.lists(st.integers(0, 20), max_size=8),
                      st.sampled_from([None, None, None, 's', '10s', '.3s',
-                                      'd', '8.2f', '6s', 'r']))
+                                      'd', '8.2f', '6s', 'r', 'X', '08X',
+                                      'x', '.3E', '.2e', 'G', 'g', '10.4G',
+                                      'o', 'i', 'F', 'c', 'S', 'D']))
 
 
 def nontrivial(case):
